@@ -1,33 +1,55 @@
 #!/bin/bash
-# usage: tools/seed_eval.sh <Cxx> <k> [check-id ...]
-# Confirms a seeded change delivered by a sub-agent in /tmp/seed/<Cxx>.out (patch<k>.diff, demo<k>_test.go, meta<k>.json) in the scratch
-# worktree /tmp/seed/<Cxx>, runs the owning check(s) against that worktree, and stores the change under /verif/seeded/<Cxx>-<k>/.
+# usage: tools/seed_eval.sh <seed-dir-name e.g. C03-1> [check-id ...]
+# Confirms the seeded change /verif/seeded/<name>/ in a fresh scratch worktree of /repo's HEAD (suite passes with the change, demo fails
+# with it and passes without), runs the owning check(s) against that worktree (VERIF_REPO), removes the worktree and its build
+# output, and rewrites /verif/seeded/<name>/meta.json. /repo itself is never touched.
 set -u
 export GOFLAGS=-mod=mod GOPROXY=off GOSUMDB=off GOTOOLCHAIN=local
-P=$1; K=$2; shift 2
+N=$1; shift
+P=${N%%-*}
 CHECKS=${*:-$P}
-WT=/tmp/seed/$P; OUT=/tmp/seed/$P.out
-HEAD=$(git -C /repo rev-parse HEAD)
-git -C $WT checkout -q -- . ; git -C $WT clean -fdq; git -C $WT checkout -q --detach $HEAD || exit 9
+D=/verif/seeded/$N
+WT=/tmp/seedwt/$N
+mkdir -p /tmp/seedwt
+git -C /repo worktree remove --force $WT 2>/dev/null
+git -C /repo worktree add -q --detach $WT HEAD || exit 9
 cd $WT
-res() { echo "$1" | tee -a /tmp/seed/$P-$K.log; }
-: > /tmp/seed/$P-$K.log
-cp $OUT/demo${K}_test.go zz_demo_test.go
-if timeout 300 go test -vet=off -count=1 -run 'Demo|demo' . >/tmp/seed/$P-$K.base.txt 2>&1; then res "demo-without-change: pass"; else res "demo-without-change: FAIL (unexpected)"; fi
+LOG=$D/confirmation.log; : > $LOG
+res() { echo "$1" | tee -a $LOG; }
+res "repo HEAD $(git -C /repo rev-parse --short HEAD)"
+cp $D/demo_test.go zz_demo_test.go
+RACE=""; ENVX=""
+if grep -q '"property": *"C15"' $D/meta.agent.json 2>/dev/null; then RACE="-race"; export CGO_ENABLED=1; fi
+if timeout 600 go test $RACE -vet=off -count=1 -run 'Demo|demo' . >/tmp/seedwt/$N.base.txt 2>&1; then DW=pass; else DW=FAIL; fi
+res "demo-without-change: $DW"
 rm -f zz_demo_test.go
-if ! git apply $OUT/patch$K.diff 2>/tmp/seed/$P-$K.apply.txt; then res "patch: DOES NOT APPLY to current HEAD"; cat /tmp/seed/$P-$K.apply.txt; exit 3; fi
-if timeout 600 go test -vet=off -count=1 ./... >/tmp/seed/$P-$K.suite.txt 2>&1; then res "suite-with-change: pass"; else res "suite-with-change: FAIL"; fi
-cp $OUT/demo${K}_test.go zz_demo_test.go
-if timeout 300 go test -vet=off -count=1 -run 'Demo|demo' . >/tmp/seed/$P-$K.demo.txt 2>&1; then res "demo-with-change: pass (unexpected)"; else res "demo-with-change: fail (as intended)"; fi
+if ! git apply $D/patch.diff 2>/tmp/seedwt/$N.apply.txt; then res "patch: DOES NOT APPLY to current HEAD"; cat /tmp/seedwt/$N.apply.txt; git -C /repo worktree remove --force $WT; exit 3; fi
+if CGO_ENABLED=0 timeout 600 go test -vet=off -count=1 ./... >/tmp/seedwt/$N.suite.txt 2>&1; then SU=pass; else SU=FAIL; fi
+res "suite-with-change: $SU"
+cp $D/demo_test.go zz_demo_test.go
+if timeout 600 go test $RACE -vet=off -count=1 -run 'Demo|demo' . >/tmp/seedwt/$N.demo.txt 2>&1; then DC="pass (unexpected)"; else DC="fail (as intended)"; fi
+res "demo-with-change: $DC"
 rm -f zz_demo_test.go
+unset CGO_ENABLED
 cd /verif
+CAUGHT=""
 for C in $CHECKS; do
-  VERIF_REPO=$WT timeout 1500 ./run $C quick >/tmp/seed/$P-$K.check-$C.txt 2>&1; rc=$?
-  res "check $C quick: exit $rc $(grep -c '^VIOLATION' /tmp/seed/$P-$K.check-$C.txt) violation line(s)"
-  grep -A1 '^VIOLATION' /tmp/seed/$P-$K.check-$C.txt | head -6 | cut -c1-300 | tee -a /tmp/seed/$P-$K.log
+  VERIF_REPO=$WT timeout 1800 ./run $C quick >/tmp/seedwt/$N.check-$C.txt 2>&1; rc=$?
+  nv=$(grep -c '^VIOLATION' /tmp/seedwt/$N.check-$C.txt)
+  res "check $C quick: exit $rc, $nv VIOLATION line(s)"
+  grep -A1 '^VIOLATION' /tmp/seedwt/$N.check-$C.txt | grep -v '^--' | head -4 | cut -c1-400 | sed "s#$WT/##g" | tee -a $LOG
+  if [ $rc -eq 1 ]; then CAUGHT="$CAUGHT $C"; fi
 done
 git -C /verif checkout -q -- evidence 2>/dev/null
-git -C $WT checkout -q -- . ; git -C $WT clean -fdq
-D=/verif/seeded/$P-$K; mkdir -p $D
-cp $OUT/patch$K.diff $D/patch.diff; cp $OUT/demo${K}_test.go $D/demo_test.go; cp $OUT/meta$K.json $D/meta.agent.json
-cp /tmp/seed/$P-$K.log $D/confirmation.log
+git -C /repo worktree remove --force $WT
+rm -rf /tmp/seedwt/$N.*.txt
+python3 - "$D" "$N" "$P" "$DW" "$SU" "$DC" "$CAUGHT" "$CHECKS" <<'PY'
+import json,sys,os
+d,n,p,dw,su,dc,caught,checks=sys.argv[1:9]
+a=json.load(open(os.path.join(d,'meta.agent.json')))
+m={"seed":n,"property":p,"summary":a.get("summary"),"needs_to_manifest":a.get("needs_to_manifest"),"files_changed":a.get("files_changed"),
+   "author":"independent sub-agent given only the property text and a scratch worktree",
+   "confirmed":{"suite_with_change":su,"demo_with_change":dc,"demo_without_change":dw,"how":"tools/seed_eval.sh "+n+" (fresh worktree of /repo HEAD, go test for suite and demo, then ./run <check> quick with VERIF_REPO pointing at the worktree)"},
+   "checks_run":checks.split(),"caught_by":caught.split()}
+json.dump(m,open(os.path.join(d,'meta.json'),'w'),indent=1)
+PY
